@@ -21,6 +21,10 @@ THEOREMS = [
     "PyTrie.Props.C07.delete_reads_on_path",
     "PyTrie.Props.C07.set_delete_missing_on_path",
     "PyTrie.Props.C07.set_delete_retry_progress",
+    "PyTrie.Props.C07.raw_set_partial",
+    "PyTrie.Props.C07.raw_delete_partial",
+    "PyTrie.Props.C07.raw_set_missing_on_path",
+    "PyTrie.Props.C07.raw_delete_missing_on_path",
 ]
 RULE = ("tries built by generated histories (prune on/off), then a subset of node bodies removed from the database (every "
         "subset for small tries, random subsets otherwise, single nodes, everything), then one operation — get, exists, set, "
